@@ -133,7 +133,7 @@ def mutators_are_gated(ctx):
                            "temporary file before the gate raises")
         if any(e.startswith(("TEMP.", "TMEM.")) for e in mut) and "temp_storage_op" not in decos:
             bad.append("uses temporary storage without acquiring it (temp_storage_op missing)")
-        yield Ob("C15.R2", ["C15", "C11"], f"{m.qual} | gated mutator | decorators {decos}", not bad,
+        yield Ob("C15.R2", ["C15"], f"{m.qual} | gated mutator | decorators {decos}", not bad,
                  "; ".join(bad) if bad else f"{need} gate precedes every effect", m.loc())
 
 
